@@ -215,6 +215,7 @@ pub fn scenarios(thorough: bool) -> Vec<Scenario> {
     }
     v.push(pair_conflict_scenario("pair-conflict", 2, 3, if thorough { &[1, 8, 4] } else { &[1, 8] }, if thorough { 5 } else { 4 },
         &[Op::Resolve(1, 0, 0), Op::Resolve(1, 0, 1), Op::Snapshot(1), Op::Commit(1, 2), Op::ObjPut(1, 1)]));
+    v.push(many_commits_scenario("pair-many-commits", if thorough { 4 } else { 3 }, &[]));
     // chains of several staged revisions of the same objects in the very first commit; discard and redo
     let a = arr_docs();
     v.push(single_scenario("single-first-commit", vec![a[0].clone(), a[3].clone(), a[4].clone(), a[8].clone()], if thorough { 6 } else { 5 },
